@@ -9,6 +9,7 @@ import Cirbo.Model.Bench
 import Driver.Steps
 import Cirbo.Model.Miter
 import Cirbo.Model.Passes
+import Driver.Gens
 /-! `cirbo_model`: one JSON request per input line, one JSON response per output line. -/
 open Lean Cirbo Driver
 
@@ -244,6 +245,7 @@ def handle (j : Json) : Except String Json := do
       let heavy ← (← j.getObjVal? "heavy").getBool?
       pure (ofExcept jCircuit (cleanup c heavy))
     | _ => throw "bad mode"
+  | "gen" => GenDrv.genOp j
   | "optable_issues" => pure (ok (jStrs opTableIssues))
   | "check_wf" => do
     let c ← getCircuit j
